@@ -152,8 +152,8 @@ func TestSim(t *testing.T) {
 				stuck = 0
 			}
 			last = cur
-			if stuck >= 12 {
-				fmt.Fprintln(os.Stderr, "harness: WATCHDOG no progress for 60 s (un-modelled blocking?); goroutine dump follows")
+			if stuck >= 36 {
+				fmt.Fprintln(os.Stderr, "harness: WATCHDOG no progress for 180 s (un-modelled blocking?); goroutine dump follows")
 				debug.SetTraceback("all")
 				buf := make([]byte, 1<<20)
 				n := runtimeStack(buf)
